@@ -4,3 +4,4 @@ pub mod c10;
 pub mod vmrun;
 pub mod pipe;
 pub mod c05;
+pub mod c18;
